@@ -63,7 +63,7 @@ def run_script(args):
     import os
     import tempfile
 
-    os.chdir(tempfile.mkdtemp(prefix="c10run_"))
+    os.chdir(tempfile.mkdtemp(prefix="c10run_", dir=os.environ.get("VERIF_WORK")))   # inside the check's work directory: removed with it
     warnings.filterwarnings("ignore")
     logging.disable(logging.CRITICAL)
     import porepy as pp
